@@ -214,6 +214,7 @@ def run():
             dict(target="bimodal", kernel="rwm", clustering=True, mode="blobs", N=32, n_total=96),
             dict(target="expface", kernel="tpcn", clustering=True, mode="scalar", N=24, n_total=72, resample="syst"),
             dict(target="vonmises", kernel="rwm", clustering=False, mode="blobs", N=24, n_total=72, volume_variation=1.0)]
+    cfgs += [dict(target="support", tkw=dict(f=0.6), kernel="rwm", clustering=False, mode="scalar", N=32, n_total=96, ess_ratio=3.0)]
     if not ck.quick:
         cfgs += [dict(target="support", tkw=dict(f=0.5), kernel="tpcn", clustering=False, mode="scalar", N=32, n_total=96),
                  dict(target="gauss4", kernel="tpcn", clustering=True, mode="blobs", N=40, n_total=120, cluster_every=2)]
